@@ -289,6 +289,8 @@ theorem hs_unfold (v : Variant) (inl : Client → Client × HsRes) (c : Client) 
          else (c1.setCur fun s => { s with subs := s.subs ++ [a], alive := false }, .errTransport)
        | .errMid => inl c1.failStream
        | .reject => (c1.setCur fun s => { s with subs := s.subs ++ [a] }, .errRejected)
+       | .okShut =>
+         ((c1.setCur fun s => { s with subs := s.subs ++ [a], success := s.success ++ [a] }).closeStream, .okDirty)
        | .shutBC => (c1, .errShutdown)
        | .shutAC => (c1.setCur fun s => { s with subs := s.subs ++ [a] }, .errShutdown)) := by
   obtain ⟨accts, isOpen, streams, attempts, mainErrs, handlerRes, refuse, beh, chaos⟩ := c
